@@ -323,18 +323,22 @@ def gen_plan(rng):
                 except Exception:
                     continue
                 edges.append((posixpath.dirname(path), sp, tgt, ex["name"], len(ex["modes"])))
-        cands = []
+        cands, first = [], []
         for (fdir, sp, tgt, name, nm) in edges:
             base = posixpath.basename(tgt)
             for cwd in sorted(set(cwds) | {maindir}):
                 if cwd == "/":
                     continue
                 if not sp.startswith("<ROOT>"):
-                    cands.append((posixpath.normpath(posixpath.join(cwd, sp)), name, nm))
+                    # "the same spelling, but from the working directory": the wrong rule most
+                    # worth having something to find
+                    first.append((posixpath.normpath(posixpath.join(cwd, sp)), name, nm))
                 cands.append((posixpath.join(cwd, base), name, nm))
             cands.append((posixpath.join(posixpath.dirname(fdir), base), name, nm))
+        rng.shuffle(first)
         rng.shuffle(cands)
-        for (p, name, nm) in cands[:8]:
+        cands = first[:5] + cands
+        for (p, name, nm) in cands[:10]:
             p = posixpath.normpath(p)
             if p.startswith("..") or p in (".", ""):
                 continue
